@@ -3,12 +3,12 @@ use crate::util::{call, fail_panic, hexs, Res};
 use engine::{Outcome, Report, Src};
 use rdp::nla::ntlm::NTLMv2SecurityInterface;
 use rdp::nla::rc4::Rc4 as LibRc4;
-use rdp::nla::sspi::GenericSecurityService;
+use rdp::nla::sspi::{AuthenticationProtocol, GenericSecurityService};
 use refimpl::crypto::{self, SealCtx};
 use serde::{Deserialize, Serialize};
 
 pub const LEVEL: &str = "exploration";
-pub const RULE: &str = "case = (key material: exported session key or four independent keys; history of messages in both directions with lengths 0..300; optional tamper of one server-to-client message: bit flip, truncation, extension). Oracle: every gss_wrapex output is byte-identical to the independent MS-NLMP seal under the client keys with carried RC4 state and sequence numbers 0,1,2..; every message sealed by the reference server unseals to its plaintext; every tampered message yields Err. bitflips section enumerates every single-bit flip, every truncation length and 1..4 byte extensions of every server message of a set of histories (fresh context, preceding messages replayed). Non-trivial = history with >= 2 messages in one direction (state continuity) or a tamper; distinct by hash of the case.";
+pub const RULE: &str = "case = (key material: exported session key or four independent keys; history of messages in both directions with lengths 0..300; optional tamper of one server-to-client message: bit flip, truncation, extension). Oracle: every gss_wrapex output is byte-identical to the independent MS-NLMP seal under the client keys with carried RC4 state and sequence numbers 0,1,2..; every message sealed by the reference server unseals to its plaintext; every tampered message yields Err. handshake-contexts: the context comes from Ntlm handshake(s) against the reference verifier (one or several CHALLENGEs answered by the same Ntlm object) followed by build_security_interface(), and is compared with the reference keyed by the session key recovered from the last AUTHENTICATE. bitflips section enumerates every single-bit flip, every truncation length and 1..4 byte extensions of every server message of a set of histories (fresh context, preceding messages replayed). Non-trivial = history with >= 2 messages in one direction (state continuity) or a tamper; distinct by hash of the case.";
 
 #[derive(Serialize, Deserialize, Hash, Clone, Debug)]
 pub enum Tamper {
@@ -155,6 +155,99 @@ pub fn run(c: &Case) -> Outcome {
     out
 }
 
+/// a security context obtained the way the library's users obtain it: Ntlm handshake(s) against the reference
+/// server, then build_security_interface(); its messages must interoperate with the keys derived from the
+/// session key of the LAST handshake
+#[derive(Serialize, Deserialize, Hash, Clone, Debug)]
+pub struct HsCase {
+    pub hs: crate::props::c15::Case,
+    pub history: Vec<(bool, Vec<u8>)>,
+}
+
+pub fn run_handshake(c: &HsCase) -> Outcome {
+    let mut out = Outcome::new();
+    out.nontrivial(true);
+    if !c.hs.earlier.is_empty() {
+        out.label("re-authentication");
+    }
+    let (mut n, exported) = match crate::props::c15::handshake(&c.hs, &mut out) {
+        Some(x) => x,
+        None => return out,
+    };
+    let (r, _) = call(|| Ok(n.build_security_interface()));
+    let mut lib = match r {
+        Res::Ok(l) => l,
+        Res::Err(e) => {
+            out.fail("seal:build-error", e);
+            return out;
+        }
+        Res::Panic(p) => {
+            fail_panic(&mut out, "build_security_interface", &p);
+            return out;
+        }
+    };
+    let k = crypto::session_keys(&exported);
+    let mut ref_client = SealCtx::new(&k.client_sign, &k.client_seal);
+    let mut ref_server = SealCtx::new(&k.server_sign, &k.server_seal);
+    for (i, (to_server, msg)) in c.history.iter().enumerate() {
+        if *to_server {
+            let want = ref_client.seal(msg);
+            let (r, _) = call(|| lib.gss_wrapex(msg));
+            match r {
+                Res::Ok(got) if got[..] == want[..] => {}
+                Res::Ok(got) => {
+                    out.fail("seal:handshake-context:differs", format!("message #{} sealed by the context of the last handshake differs from MS-NLMP sealing under that handshake's session key: got {} want {}", i, hexs(&got), hexs(&want)));
+                    return out;
+                }
+                Res::Err(e) => {
+                    out.fail("seal:error", format!("gss_wrapex failed on message #{}: {}", i, e));
+                    return out;
+                }
+                Res::Panic(p) => {
+                    fail_panic(&mut out, "gss_wrapex", &p);
+                    return out;
+                }
+            }
+        } else {
+            let token = ref_server.seal(msg);
+            let (r, _) = call(|| lib.gss_unwrapex(&token));
+            match r {
+                Res::Ok(plain) if plain[..] == msg[..] => {}
+                Res::Ok(plain) => {
+                    out.fail("unseal:wrong-plaintext", format!("message #{}: got {} want {}", i, hexs(&plain), hexs(msg)));
+                    return out;
+                }
+                Res::Err(e) => {
+                    out.fail("unseal:handshake-context:rejected-honest", format!("honest server message #{} sealed under the last handshake's session key rejected: {}", i, e));
+                    return out;
+                }
+                Res::Panic(p) => {
+                    fail_panic(&mut out, "gss_unwrapex", &p);
+                    return out;
+                }
+            }
+        }
+    }
+    out
+}
+
+pub fn decode_handshake(s: &mut Src) -> HsCase {
+    // re-authentication decided first (late choices are starved)
+    let again = s.chance(110);
+    let mut hs = crate::props::c15::decode(s);
+    if again && hs.earlier.is_empty() {
+        hs.earlier = vec![hs.challenge.clone()];
+    }
+    let n = 1 + s.below(8);
+    let history = (0..n)
+        .map(|_| {
+            let l = s.below(40);
+            (s.bool(), s.fill(l))
+        })
+        .collect();
+    HsCase { hs, history }
+}
+
 fn gen_keys(s: &mut Src) -> (Option<Vec<u8>>, Vec<Vec<u8>>) {
     if s.bool() {
         (Some(s.bytes(16)), vec![])
@@ -256,6 +349,8 @@ pub fn check(rep: &Report) {
         long.push(Case { exported: Some(exported), keys: vec![], history: [10usize, 4096, 4097, 3, 70_000, 0, 9000, 1].iter().enumerate().map(|(i, l)| ((i + k as usize) % 2 == 0, engine::src::expand(i as u32 + 9, *l))).collect(), tamper: None });
     }
     rep.list("long-histories", long, run);
+    rep.random("handshake-contexts", rep.tier.n(60_000, 1_000_000), 260, decode_handshake, run_handshake);
+    rep.require("handshake-contexts", "re-authentication", 5000);
     rep.require("histories", "multi-wrap", 1000);
     rep.require("histories", "multi-unwrap", 1000);
     rep.require("histories", "tamper", 1000);
